@@ -24,6 +24,8 @@ impl TreeSink {
     #[verifier::external_body]
     pub fn elem_name(&self, h: &Handle) -> (r: ElemName) ensures r.n == xelem_name_of(*h) { unimplemented!() }
     #[verifier::external_body]
+    pub fn get_document(&self) -> Handle { unimplemented!() }
+    #[verifier::external_body]
     pub fn append(&mut self, parent: &Handle, child: NodeOrText) { unimplemented!() }
     #[verifier::external_body]
     pub fn pop(&mut self, node: &Handle) { unimplemented!() }
